@@ -27,6 +27,27 @@ LEVEL_NOTE = ("Trusted: Coq kernel; translator for the size expression and _unwi
               "duration/dt is not covered by the real-number theorems (the binary64 reading is validated by correspondence). "
               "Known limitation (reported): with non-strict constraints a negative dim aliasing the record dimension makes the "
               "setters raise after the temporal field was stored; theorems assume no such alias.")
+TRUSTED = [
+    "hand-written models coq/C13/Shaped.v (ShapedTensor: constraint dictionary, _constraint_dimensionality and _constraints_consistent "
+    "transcribed by hand from infrastructure.py:188-203, 227-251, compatibility, __make_compatible, reconstrain, value setter) and "
+    "coq/C13/Resize.v (RecordTensor constructor, dt/duration/inclusive setters, reconstrain, value setter, deinitialize) on top of "
+    "coq/C01/Ring.v: tied to the code only by the differential correspondence of this check",
+    "torch semantics assumed by the model: basic slicing t[..., a:, ...], torch.cat along a dim, torch.zeros, Tensor.roll, "
+    "nn.Parameter.data assignment keeps the parameter object",
+]
+ASSUMES = [
+    "theorems about the record size are over the reals; binary64 rounding of duration/dt is validated by correspondence only",
+    "record-level theorems assume a well-formed valid record without a constraint aliasing the record dimension (automatic for "
+    "strict constraints; see obligation setter_alias_nonstrict_refuted for what happens otherwise)",
+    "value assignment (which can invalidate a non-live tensor) and range writes are outside the run-level invariant theorem",
+]
+EXPLANATION = ("Obligations: ShapedTensor level - dimensionality/consistency/compatibility tests equal independent specifications "
+               "(iff), valid is sound, reconstrain branch by branch (refused calls have no effect, removal never alters data, edit "
+               "resizes), validity invariant over arbitrary operation sequences, index-level specification of the data resize. "
+               "RecordTensor level - every temporal setter yields the generated number of slots, keeps the newest min(old,new) "
+               "observations in place, zero-fills older slots, never fails on uninitialised storage; reconstrain on a record; "
+               "invariant over all runs from the constructor; the size expression equals the documented formula and is the least "
+               "admissible size (reals).")
 HEADER = ("From Coq Require Import List ZArith Bool PrimFloat.\n"
           "From Inferno Require Import Base.Num Base.NumF C01.Ring C01.RingExec C13.Shaped C13.Resize C13.ResizeExec.\n"
           "Import ListNotations.\nOpen Scope Z_scope.\n")
@@ -443,6 +464,9 @@ def canon_impl(case, ti):
             out.append(e)
             continue
         s = e[-1]
+        if isinstance(s, dict):
+            out.append(e)
+            continue
         snap = [s[0], s[1], F.dec_float(s[2]), F.dec_float(s[3])] + s[4:]
         out.append([e[0], snap] if i == 0 else [e[0], e[1], snap])
     return out
@@ -528,6 +552,8 @@ def oracle_record(case, tr):
     strict = case["strict"]
     for i, (op, ent) in enumerate(zip(case["ops"], tr[1:])):
         e, _out, cur = ent
+        if isinstance(cur, dict):
+            return fail(i, op, "state_unreadable", error=cur["snaperr"])
         pr, pcons, pdt, pdur, pincl, pvalid, pign, _ = prev
         cr, ccons, cdt, cdur, cincl, cvalid, cign, _ = cur
         ph, ch = ring_hist(pr), ring_hist(cr)
@@ -632,6 +658,8 @@ def oracle_shaped(case, tr):
     if prev[2] and not prev[3] and prev[1][0] == 2 and not constraint_holds(prev[1][2], prev[0], strict):
         return fail(-1, None, "valid_unsound")
     for i, (op, (e, cur)) in enumerate(zip(case["ops"], tr[1:])):
+        if isinstance(cur, dict):
+            return fail(i, op, "state_unreadable", error=cur["snaperr"])
         pcons, pdata, pvalid, pign = prev[0], prev[1], prev[2], prev[3]
         ccons, cdata, cvalid, cign = cur[0], cur[1], cur[2], cur[3]
         if cvalid and not cign and cdata[0] == 2 and not constraint_holds(cdata[2], ccons, strict):
@@ -700,8 +728,13 @@ def run(ctx):
     if exhaustive:
         cases += exhaustive_cases()
     impl_raw = F.run_impl(IMPL, {"cases": cases})
-    model = F.eval_terms(ID, HEADER, [q_case(c) for c in cases], shard=60)
+    # the executable instance is no dependency of an obligation file: (re)build it against the current Gen/
+    with F.BuildLock():
+        ok, mkout = F.make(["C13/ResizeExec.vo"])
     mismatches, oracle_fail = [], []
+    if not ok:
+        mismatches.append({"case": None, "detail": "executable model C13/ResizeExec.v does not build: " + mkout[-1500:]})
+    model = F.eval_terms(ID, HEADER, [q_case(c) for c in cases], shard=60)
     stats = Counter()
     for c, ti_raw, tm in zip(cases, impl_raw, model):
         ti = canon_impl(c, ti_raw)
@@ -728,6 +761,8 @@ def run(ctx):
                 prev = ti[0][1]
                 for op, ent in zip(c["ops"], ti[1:]):
                     cur = ent[2]
+                    if isinstance(cur, dict):
+                        break
                     if op[0] in ("dt", "dur", "incl") and ent[0] == 0:
                         a, b = prev[0][0], cur[0][0]
                         stats["resize:" + ("grow" if b > a else "shrink" if b < a else "noop") +
